@@ -50,9 +50,27 @@ func c08R1(w *World, r *Report) {
 		}}
 		fl := newFlow(w, fn, cl)
 		n := 0
-		for _, ret := range fl.Returns() {
-			f := fl.Before(ret)
-			if !f.Must("stoppedTrue") {
+		// the function's own returns, and those of helpers extracted from it
+		// (the stopped test may live in a shared enqueue helper whose error the
+		// function hands back)
+		rets := fl.Returns()
+		for _, h := range w.absorbedIn(fn) {
+			for _, b := range h.Blocks {
+				if len(b.Instrs) > 0 {
+					if rr, ok := b.Instrs[len(b.Instrs)-1].(*ssa.Return); ok && len(rr.Results) > 0 {
+						rets = append(rets, rr)
+					}
+				}
+			}
+		}
+		for _, ret := range rets {
+			stoppedEdge := false
+			for _, d := range fl.Disjuncts(ret) {
+				if d.Must("stoppedTrue") {
+					stoppedEdge = true
+				}
+			}
+			if f := fl.Before(ret); f == nil || (!f.Must("stoppedTrue") && !(ret.Parent() != fn && stoppedEdge)) {
 				continue
 			}
 			n++
